@@ -90,6 +90,28 @@ def int_formulas(tier):
             yield "%s or %s or %s" % (a, b, c)
 
 
+# chained comparisons and membership tests as operands (family added after the seeded change C17-negate-chained-comparison:
+# flipping the single operator of "0 < x < 5" dropped the second link); used as plain formulas and as conditions
+CHAINS = ["0 < x < 2", "0 <= x <= y", "x < y < 2", "0 < x <= 1 < y", "x == y == 1", "0 != x != 2", "y > x > 0", "0 < x < y < 3", "x < 1 > y",
+          "x in (0, 1)", "x not in (0, 1)", "0 < x in (1, 2)", "x == 1 != y", "-1 < x < 3", "2 > x >= 0"]
+
+
+def chain_formulas():
+    simple = ["x > 0", "y <= 1", "x != 1"]
+    for c in CHAINS:
+        yield c
+        yield "not %s" % c
+        yield "not (%s)" % c
+        for a in simple:
+            for j in ("and", "or"):
+                yield "%s %s %s" % (c, j, a)
+                yield "%s %s %s" % (a, j, c)
+                yield "not (%s %s %s)" % (c, j, a)
+    for c1, c2 in itertools.product(CHAINS[:6], repeat=2):
+        yield "%s and %s" % (c1, c2)
+        yield "not (%s or %s)" % (c1, c2)
+
+
 COND_SHAPES = {
     "if_pass_else": "def g(x, y):\n    if {F}:\n        pass\n    else:\n        print('E')\n    print('after')\n",
     "if_long_else_short": "def g(x, y):\n    if {F}:\n        print(1)\n        print(2)\n        print(3)\n        print(4)\n    else:\n        print('E')\n    print('after')\n",
@@ -178,7 +200,9 @@ def units(tier):
     for ch in _chunks(("1 if %s else 2" % f for f in int_formulas(tier)), 100):
         yield {"t": "bool", "forms": ch}
     cond_forms = [f for i, f in enumerate(formulas("quick")) if " and " in f or " or " in f or f.startswith("not")]
-    cond_forms = cond_forms[:: (7 if tier == "quick" else 1)] + ["not %s" % a for a in atoms()]
+    cond_forms = cond_forms[:: (7 if tier == "quick" else 1)] + ["not %s" % a for a in atoms()] + list(chain_formulas())
+    for ch in _chunks(chain_formulas(), 100):
+        yield {"t": "bool", "forms": ch}
     for ch in _chunks(cond_forms, 40):
         yield {"t": "cond", "forms": ch}
     for r in ranges():
